@@ -1,7 +1,7 @@
 (** C16 - the logging proxy is a transparent relay: the viewer-side parser, which runs before each
     chunk is forwarded, neither spins nor depends on chunking (statements grow). *)
-From Coq Require Import ZArith List Bool.
-From VD Require Import Base.Bytes Base.Text Model.Recorder Proofs.RecorderP Proofs.ParserP.
+From Coq Require Import ZArith List Bool Lia.
+From VD Require Import Base.Bytes Base.Text Model.Recorder Proofs.RecorderP Proofs.ParserP Proofs.SessionAllP.
 Import ListNotations.
 Open Scope Z_scope.
 
@@ -37,3 +37,19 @@ Theorem C16_cuttext_skipped : forall s now n text rest,
   handle s now = HOk [RCutText] (mk_rstate rest HProtocol 1 (r_pwreq s) (r_mouse s) (r_last s)).
 Proof. exact cuttext_skipped. Qed.
 Print Assumptions C16_cuttext_skipped.
+
+(** A viewer session made of the seven message kinds the recorder understands - SetPixelFormat,
+    SetEncodings, FramebufferUpdateRequest, KeyEvent, PointerEvent, ClientCutText, QEMU extended key
+    event - with ANY field values (any pixel-format bytes, any number of any encodings, any cut text,
+    any pointer mask; keysyms the recorder can name), of any length and under EVERY chunking: the
+    parser never raises, consumes exactly the session's bytes and ends at a message boundary - so every
+    chunk is forwarded. *)
+Theorem C16_session_never_raises : forall now pw msgs mouse last chunks,
+  Forall vwf msgs -> concat chunks = concat (map vwire msgs) ->
+  exists es mouse' last', rfeed_chunks (boundary [] pw mouse last) now chunks = ROk es (boundary [] pw mouse' last').
+Proof. exact session_never_raises_any_chunking. Qed.
+Print Assumptions C16_session_never_raises.
+
+Example C16_vwf_nonvacuous :
+  vwf (VSetEnc 7 [[0; 0; 0; 5]; [255; 255; 255; 17]]) /\ vwf (VCut [1; 2; 3] [104; 105]) /\ vwf (VPtr 255 65535 0).
+Proof. cbn. repeat split; try lia; repeat constructor. Qed.
